@@ -41,6 +41,9 @@ pub struct ParCase {
     pub lib_mask: u64,
     #[serde(default)]
     pub lib_every: u32,
+    /// Miri "hammer" scenario: few literals, many overlapping calls, no coverage accounting
+    #[serde(default)]
+    pub hammer: bool,
 }
 
 #[derive(Clone, Debug, PartialEq, Eq, Serialize, Deserialize)]
@@ -288,7 +291,10 @@ pub fn run_case(case: &ParCase, stats: &mut Stats, miri: bool) -> Result<ParInfo
             let preempted = o.ret > o.invoke && case.tasks.len() > 1;
 
             // coverage accounting (never part of a verdict)
-            let tier = if prop == "C08" {
+            let tier = if case.hammer {
+                stats.inc("reach.hammer_calls");
+                None
+            } else if prop == "C08" {
                 // tier accounting on corrupted bytes may itself panic (cleanly)
                 let t = catch(|| with_world!(world as usize, W, W::tier(is64, &inp.int, &inp.frac, inp.exp))).ok();
                 let mut f = Fp::new();
@@ -433,6 +439,34 @@ pub fn run_case(case: &ParCase, stats: &mut Stats, miri: bool) -> Result<ParInfo
         }
     }
 
+    // --- C08 (native): the same corrupted bytes over different stale memory ---
+    // A call whose outcome changes with the contents of never-written backing
+    // slots has read them: in the shipped build that is a read of uninitialised
+    // memory. (Miri reports such a read directly; this is the native counterpart.)
+    if prop == "C08" && !miri && case.poison_run.is_some() {
+        let mut again = case.clone();
+        again.poison_run = case.poison_run.map(|p| p.rotate_left(17) ^ 0xA5A5_5A5A_0F0F_F0F1);
+        let second = execute(&again, &again.sched, again.yield_mode);
+        stats.inc("reach.c08_second_execution_over_different_stale_memory");
+        for (t, ops) in case.tasks.iter().enumerate() {
+            for (k, _) in ops.iter().enumerate() {
+                if let (Some(a), Some(b)) = (&run.outcomes[t][k], &second.outcomes[t][k]) {
+                    if a.res != b.res {
+                        return Err(Violation::new(
+                            "C08/outcome-depends-on-uninitialised-memory",
+                            format!(
+                                "{}: {:x?} with one content of the never-written backing slots, {:x?} with another",
+                                describe_call(case, t, k),
+                                a.res,
+                                b.res
+                            ),
+                        ));
+                    }
+                }
+            }
+        }
+    }
+
     // --- O2: the concurrent history against the sequential history of the same calls ---
     if prop == "C16" && case.tasks.len() > 1 && !miri {
         let seq_spec = SchedSpec { kind: SchedKind::Sequential, seed: 0 };
@@ -488,9 +522,60 @@ fn draw_shape_pair(r: &mut Rng, li: usize, lf: usize, sim_only: bool) -> (ShapeS
     (ShapeSpec::draw(r, ki, li), ShapeSpec::draw(r, kf, lf))
 }
 
+/// Engine B scenario for unsynchronised shared state: 2-3 real threads hammer the
+/// same two short big-integer-tier literals through plain slices in one configuration.
+fn gen_hammer_case(seed: u64, cfg: &GenCfg) -> ParCase {
+    let mut r = Rng::new(seed ^ 0x4A33);
+    let mut inputs: Vec<Input> = Vec::new();
+    let mut tries = 0;
+    while inputs.len() < 2 && tries < 200 {
+        tries += 1;
+        let i = gen::draw_input(&mut r, Mix::Short, false, false);
+        if i.family.starts_with("halfway") && i.family.ends_with("f32") && i.digits() > 19 && i.digits() <= 70 && !inputs.contains(&i) {
+            inputs.push(i);
+        }
+    }
+    while inputs.len() < 2 {
+        inputs.push(gen::draw_input(&mut r, Mix::Short, false, false));
+    }
+    let world = r.below(N_WORLDS as u64) as u8;
+    let ntasks = 2 + r.usize_below(2);
+    let mut tasks = Vec::new();
+    for t in 0..ntasks {
+        let n = 4 + r.usize_below(3);
+        let mut ops = Vec::new();
+        for k in 0..n {
+            let input = match t % 3 {
+                0 => k % 2,
+                1 => 0,
+                _ => (k + 1) % 2,
+            };
+            ops.push(POp::Parse { world, f64: false, input, si: ShapeSpec::slice(), sf: ShapeSpec::slice() });
+        }
+        tasks.push(ops);
+    }
+    ParCase {
+        property: cfg.property.to_string(),
+        inputs,
+        tasks,
+        sched: SchedSpec { kind: SchedKind::Random, seed: r.next_u64() },
+        yield_mode: sched::YIELD_NONE,
+        poison_ref: None,
+        poison_run: None,
+        fill: None,
+        stack_kib: 512,
+        lib_mask: if r.chance(1, 2) { 0 } else { r.next_u64() },
+        lib_every: *r.pick(&[1u32, 3, 7]),
+        hammer: true,
+    }
+}
+
 pub fn gen_case(seed: u64, cfg: &GenCfg) -> ParCase {
     let mut r = Rng::new(seed);
     let prop = cfg.property;
+    if cfg.miri && prop == "C16" && r.chance(1, 2) {
+        return gen_hammer_case(seed, cfg);
+    }
     let ntasks = if cfg.miri {
         *r.pick(&[1usize, 2, 2, 3])
     } else {
@@ -612,6 +697,7 @@ pub fn gen_case(seed: u64, cfg: &GenCfg) -> ParCase {
             }
         },
         lib_every: *r.pick(&[1u32, 1, 2, 5, 16]),
+        hammer: false,
     }
 }
 
@@ -783,6 +869,7 @@ pub fn gen_case_c08(seed: u64, cfg: &GenCfg) -> ParCase {
         stack_kib: 512,
         lib_mask: 0,
         lib_every: 1,
+        hammer: false,
     }
 }
 
